@@ -434,7 +434,11 @@ ROOT_ATTRS = ["ttp:cellResolution", "ttp:frameRate", "ttp:frameRateMultiplier", 
 ATTR_NAMES = STYLE_ATTRS + OTHER_ATTRS + ["ttp:cellResolution", "ttp:frameRate", "ttp:frameRateMultiplier", "ttp:tickRate", "ittp:activeArea",
                                           "ittp:aspectRatio", "ttp:displayAspectRatio", "foo"]
 
-VALUE_POOL = GENERIC + [
+# typed values that every slice of the quick tier keeps: with the seeds' begin="1s" / end="2s" they give an interval that is shorter than a
+# millisecond and straddles a millisecond boundary (rounded time codes coincide, truncated ones do not)
+ALWAYS_VALUES = ["1.9996s", "1.0004s"]
+
+VALUE_POOL = GENERIC + ALWAYS_VALUES + [
   " ", "  ", "1", "2", "0.5", "1.5", "NaN", "inf", "-inf", "1e400", "1e-400", "+1", "١",
   # time expressions
   "1s", "1.5s", "0.0001s", "10f", "10.5f", "10t", "1t", "00:00:01", "00:00:01.5", "00:00:01:10", "00:00:01:99", "1h", "1m", "100ms", "-1s", "1fps", "99999999h",
